@@ -432,7 +432,8 @@ def r5(ctx):
         try:
             from ..consteval import module_scope, Evaluator, Instance
             env = module_scope(ctx.ix, FQITER)
-            lines = ['@L1 \n', 'L2\n', 'L3\n', 'L4\n', '@M1\n', 'M2\n', 'M3\n', 'M4\n']
+            # (the second record is a read of length zero: its sequence and quality lines are blank and still are lines of the record)
+            lines = ['@L1 \n', 'L2\n', 'L3\n', 'L4\n', '@M1\n', '\n', '+\n', '\n', '@N1\n', 'N2\n', '+\n', 'N4\n']
             state = {'k': 0}
 
             def hook(ev, call, env_):
@@ -444,11 +445,11 @@ def r5(ctx):
             e = dict(env)
             e['it'] = it
             e[h] = '<handle>'
-            recs = [Evaluator(e, budget=5000, call_hook=hook).ev(ast.parse(f'it._readFastqRecord({h})', mode='eval').body, e) for _ in range(2)]
+            recs = [Evaluator(e, budget=5000, call_hook=hook).ev(ast.parse(f'it._readFastqRecord({h})', mode='eval').body, e) for _ in range(3)]
             got = [tuple(getattr(r_, k_, None) if not hasattr(r_, 'attrs') else r_.attrs.get(k_) for k_ in ('header', 'sequence', 'plus', 'qual')) for r_ in recs]
-            want = [('@L1', 'L2', 'L3', 'L4'), ('@M1', 'M2', 'M3', 'M4')]
-            ok = got == want and state['k'] == 8
-            detail = f'_readFastqRecord interpreted on a model handle: two calls consume {state["k"]} lines and give {got}' + ('' if ok else f', expected {want} from 8 lines')
+            want = [('@L1', 'L2', 'L3', 'L4'), ('@M1', '', '+', ''), ('@N1', 'N2', '+', 'N4')]
+            ok = got == want and state['k'] == 12
+            detail = f'_readFastqRecord interpreted on a model handle: three calls consume {state["k"]} lines and give {got}' + ('' if ok else f', expected {want} from 12 lines')
             wit = None if ok else {'lines of the handle': lines, 'records': got, 'lines consumed': state['k']}
         except Exception as e_:
             detail += f' (and the method is outside the interpreted subset: {type(e_).__name__}: {str(e_)[:60]})'
